@@ -89,6 +89,8 @@ var c02Table = []c02Ent{
 	{Path: "/idir/index.html", Kind: 'd'},
 	{Path: "/idir/index.html/x.txt", Kind: 'f', Tok: "IDIRX"},
 	{Path: "/idir/index.htm", Kind: 'f', Tok: "IDIR"},
+	{Path: "/hdir", Kind: 'd'}, // hidden directory (`internal /hdir`): not listed, not archived, nothing below it archived
+	{Path: "/hdir/in.txt", Kind: 'f', Tok: "HDIRIN"},
 	{Path: "/hidx", Kind: 'd'},
 	{Path: "/hidx/index.html", Kind: 'f', Tok: "HIDX"},
 	{Path: "/hidx/index.htm", Kind: 'f', Tok: "HIDXB"},
@@ -109,7 +111,7 @@ var c02Table = []c02Ent{
 }
 
 // the hide list the sites end up with: hideCasketfile's entry first, then the `internal` paths
-var c02Internal = []string{"/secret.txt", "/hsib.txt.gz", "/hidx/index.html"}
+var c02Internal = []string{"/secret.txt", "/hsib.txt.gz", "/hidx/index.html", "/hdir"}
 
 func c02Hide() []string { return c02HideOf("static") }
 
@@ -646,7 +648,7 @@ func c02Split(target string) (p, query string, ok bool) {
 
 // c02PrefixPath is the request path the handlers of the site 127.0.0.1:0/pre see: net/http's
 // parse of the request-target, then httpserver.trimPathPrefix (TrimPrefix on the escaped path,
-// re-parsed with url.Parse).
+// re-parsed with url.ParseRequestURI, i.e. as a path even if it begins with "//").
 func c02PrefixPath(target string) (string, bool) {
 	u, err := url.ParseRequestURI(target)
 	if err != nil {
@@ -660,11 +662,18 @@ func c02PrefixPath(target string) (string, bool) {
 	if u.RawQuery != "" || u.ForceQuery {
 		uri += "?" + u.RawQuery
 	}
-	t, err := url.Parse(uri)
+	t, err := url.ParseRequestURI(uri)
 	if err != nil {
 		return u.Path, true
 	}
 	return t.Path, true
+}
+
+// c02PrefixMatches: the vhost trie of the server matches the site 127.0.0.1:0/pre iff the decoded
+// request path starts with "/pre" (byte-wise).
+func c02PrefixMatches(target string) bool {
+	u, err := url.ParseRequestURI(target)
+	return err == nil && strings.HasPrefix(u.Path, "/pre")
 }
 
 func c02EscapedPath(target string) string {
@@ -720,16 +729,24 @@ func c02Run(in0 interface{}) Result {
 	}
 	req := cApp("mkreq", cN(c02MethodCode(in.Method)), cStr(p), cStr(in.AE), cStr(c02QueryGet(query, "archive")))
 	fx := c02Fixture()
-	site := cApp("mksite", cStr(fx.root), cStr(filepath.Join(fx.base, c02Origin(in.Site))), cStr(scope), cStrList(types))
+	sitePrefix := "/"
+	if prefixSite {
+		sitePrefix = "/pre"
+	}
+	site := cApp("mksite", cStr(fx.root), cStr(filepath.Join(fx.base, c02Origin(in.Site))), cStr(sitePrefix), cStr(scope), cStrList(types))
 	ob := cApp("mkobs", cN(uint64(o.Status)), cStr(loc), cStr(o.CE), cN(uint64(o.Kind)), cNList(o.IDs), cStrList(o.Names))
 	if prefixSite {
-		// the path-prefix trimming of httpserver.Server (url.Parse of the escaped rest) is not modelled:
-		// these cases are judged against the executable property only
 		sig := c02Sig(in, p, query)
 		if strings.HasPrefix(p, "//") || strings.HasPrefix(strings.TrimPrefix(c02EscapedPath(in.Target), "/pre"), "//") {
 			sig = "prefix-site:rest-after-prefix-starts-with-two-slashes"
 		}
-		return Result{Term: cApp("CContract", site, req, ob), Obs: o, Sig: sig, Nontrivial: o.Status == 200 || o.Status/100 == 3,
+		term := cApp("CReq", site, req, ob)
+		if !c02PrefixMatches(in.Target) {
+			// the request path does not start with the site's path prefix: the server answers "no such
+			// site" (vhost matching is C01's subject); judged against the executable property only
+			term = cApp("CContract", site, req, ob)
+		}
+		return Result{Term: term, Obs: o, Sig: sig, Nontrivial: o.Status == 200 || o.Status/100 == 3,
 			Key: in.Site + "|" + in.Method + "|" + in.Target + "|" + in.AE, Class: fmt.Sprintf("%s:%s:%d:k%d", in.Site, in.Method, o.Status, o.Kind)}
 	}
 	sig := c02Sig(in, p, query)
@@ -771,7 +788,7 @@ func c02Sig(in *c02In, p, query string) string {
 		return "browse:dir-redirect:path-starts-with-two-slashes"
 	case at.Dir && inScope && get && strings.HasSuffix(p, "/") && c02QueryGet(query, "archive") != "":
 		for _, n := range nodes {
-			if strings.HasPrefix(n.Path, strings.TrimSuffix(c, "/")+"/") && !n.Dir && hiddenID[n.ID] {
+			if strings.HasPrefix(n.Path, strings.TrimSuffix(c, "/")+"/") && hiddenID[n.ID] {
 				return "browse:archive:directory-with-hidden-descendant"
 			}
 		}
@@ -1119,7 +1136,7 @@ func c02Gen(r *Rand, tier string) []interface{} {
 func init() {
 	register(&Property{
 		ID: "C02", Imports: "V.Lib V.GoPath V.Gen_C02 V.Gen_C02b V.C02_Model", Judge: "judge", Shard: 150,
-		Rule:   "real in-process sites (static; browse / with every archive type; browse /dir with zip, tar.gz; the same root under a site path prefix /pre; the origin Casketfile in a sub-directory of the root / outside it / in a sibling directory named root+x) rooted in a fixture with files, nested directories, index pages (incl. a directory named index.html and a hidden index page), .gz/.br/.zst siblings (incl. a hidden one and a directory named like one), hard links, odd names, the origin Casketfile inside the root and `internal`-hidden files, plus token files outside the root; raw request lines: exhaustive targets of depth <= 2 (3 sampled / full) over the segment alphabet {a.txt, dir, ., .., empty, %2e, %2E%2e, %2f, backslash, %5c, A.TXT, Casketfile, x} x trailing slash (static; sampled on browse with ?archive=); every directory x archive types / sort orders / JSON; open-redirect shapes (1..5 leading slashes x foreign first segment x dot-dot x directory or file-with-slash); every file x Accept-Encoding subsets and decoys; random respellings (dot segments, doubled / encoded slashes and dots, case flips, backslashes, climbing above the root, NUL) x methods x queries. Prefix-site cases are judged against the executable property only (CContract). Non-trivial = answers 200 or 3xx",
+		Rule:   "real in-process sites (static; browse / with every archive type; browse /dir with zip, tar.gz; the same root under a site path prefix /pre; the origin Casketfile in a sub-directory of the root / outside it / in a sibling directory named root+x) rooted in a fixture with files, nested directories, index pages (incl. a directory named index.html and a hidden index page), .gz/.br/.zst siblings (incl. a hidden one and a directory named like one), hard links, odd names, the origin Casketfile inside the root, `internal`-hidden files and an `internal`-hidden directory, plus token files outside the root; raw request lines: exhaustive targets of depth <= 2 (3 sampled / full) over the segment alphabet {a.txt, dir, ., .., empty, %2e, %2E%2e, %2f, backslash, %5c, A.TXT, Casketfile, x} x trailing slash (static; sampled on browse with ?archive=); every directory x archive types / sort orders / JSON; open-redirect shapes (1..5 leading slashes x foreign first segment x dot-dot x directory or file-with-slash); every file x Accept-Encoding subsets and decoys; random respellings (dot segments, doubled / encoded slashes and dots, case flips, backslashes, climbing above the root, NUL) x methods x queries. Prefix-site cases are modelled like the others (the path the handlers see is computed as trimPathPrefix does); those whose path does not start with the prefix never reach the site and are judged against the executable property only (CContract). Non-trivial = answers 200 or 3xx",
 		Gen:    c02Gen,
 		Decode: func(raw json.RawMessage) (interface{}, error) { in := &c02In{}; return in, json.Unmarshal(raw, in) },
 		Run:    c02Run,
